@@ -843,6 +843,36 @@ def r25b_vec_range(toks, log, names):
         out.append(t); i += 1
     return out
 
+def r28_box_leak(toks, log):
+    """R28: `Box::leak::<'static>(Box::new(E))` / `Box::leak(Box::new(E))` -> `verif_leak(E)` (a value moved to the heap for the rest of the
+    process: the shim hands back a reference to exactly that value)."""
+    out = []
+    i = 0
+    n = len(toks)
+    while i < n:
+        if toks[i].text == "Box" and i + 2 < n and toks[i + 1].text == "::" and toks[i + 2].text == "leak":
+            j = i + 3
+            if toks[j].text == "::" and toks[j + 1].text == "<":
+                d = 0
+                k = j + 1
+                while True:
+                    if toks[k].text == "<": d += 1
+                    elif toks[k].text == ">":
+                        d -= 1
+                        if d == 0: break
+                    k += 1
+                j = k + 1
+            if toks[j].text == "(" and [t.text for t in toks[j + 1:j + 5]] == ["Box", "::", "new", "("]:
+                c = match_close(toks, j)
+                ci = match_close(toks, j + 4)
+                if ci == c - 1:
+                    log.add("R28", toks[i], render(toks[i:c + 1]))
+                    out += gen("verif_leak(", toks[i]) + [t.clone() for t in toks[j + 5:ci]] + gen(")", toks[c], "")
+                    i = c + 1
+                    continue
+        out.append(toks[i]); i += 1
+    return out
+
 def r26_pin_self(toks, log):
     """R26: a poll-style method of an `Unpin` type: receiver `mut self: Pin<&mut Self>` -> `&mut self`
     (for an Unpin type Pin<&mut Self> derefs to &mut Self; pinning itself is not modelled)."""
@@ -899,6 +929,7 @@ def apply_item_rewrites(toks, log, opts=None):
         toks = r25b_vec_range(toks, log, opts["vec_range"])
     toks = r24_hoist_local_types(toks, log)
     toks = r26_pin_self(toks, log)
+    toks = r28_box_leak(toks, log)
     toks = r27_ready(toks, log)
     if opts.get("str_ops"):
         toks = r23_str_ops(toks, log, opts["str_ops"])
